@@ -32,21 +32,22 @@ type DEvent struct {
 
 // Member is one go-dcp client instance (real code) plus its simulated consumer.
 type Member struct {
-	id      int
-	w       *World
-	cfg     *config.Dcp
-	bus     EventBus.Bus
-	agent   *gocbcore.Agent
-	meta    *gocbcore.Agent
-	dagent  *gocbcore.DCPAgent
-	client  couchbase.Client
-	d       dcp.Dcp
-	started bool
-	ready   bool
-	closing bool // Close() called
-	stopped bool // Start() returned
-	crashed bool
-	sess    int
+	id         int
+	w          *World
+	cfg        *config.Dcp
+	bus        EventBus.Bus
+	agent      *gocbcore.Agent
+	meta       *gocbcore.Agent
+	dagent     *gocbcore.DCPAgent
+	client     couchbase.Client
+	d          dcp.Dcp
+	started    bool
+	ready      bool
+	closing    bool // Close() called
+	lastNotifT time.Duration
+	stopped    bool // Start() returned
+	crashed    bool
+	sess       int
 
 	events        []*DEvent
 	unacked       map[int][]*DEvent // per vb, delivery order, not yet acked
@@ -64,6 +65,7 @@ type Member struct {
 	infoSent      bool
 	notifInFlight int
 	notifCount    int
+	notifAtClose  int
 	phase         string          // open | closing | closed | opening (from the lifecycle callbacks)
 	hookScrape    map[string]bool // lifecycle callbacks inside which the application scrapes (C16)
 }
